@@ -159,7 +159,9 @@ def step (s : Sess) (line : String) : Sess × String :=
     | some fv, some zf, some pub, some gp, some np, some sm =>
       if gp = 0 then (s, "bad-op") else
       ({ ctx := { version := fv, gasPrice := gp, zeroFee := zf == 1, isPublic := pub == 1, coinbase := none,
-                  blockNo := 1, namePrice := np, stakingMin := sm }, started := true }, "ok")
+                  blockNo := 1, namePrice := np, stakingMin := sm }, started := true
+         -- the parameter records written into aergo.system's storage materialise its account record
+         committed := ({} : World).put aSystem {} }, "ok")
     | _, _, _, _, _, _ => (s, "bad-op")
   | ["acct", a, b] =>
     match a.toNat?, b.toNat? with
